@@ -11,6 +11,7 @@ import (
 
 	"github.com/mgtv-tech/redis-GunYu/syncer"
 
+	"verifsim/rdbgen"
 	"verifsim/simredis"
 )
 
@@ -43,6 +44,7 @@ type c13link struct {
 	spErr   error
 	sendErr error
 	mu      sync.Mutex
+	rdb     []byte // snapshot phase first: this link begins with a full sync of these bytes
 }
 
 func (l *c13link) getPhase() int { l.mu.Lock(); defer l.mu.Unlock(); return l.phase }
@@ -56,16 +58,18 @@ type c13op struct {
 }
 
 type c13sim struct {
-	r       *Run
-	a, b    *c13site
-	ab, ba  *c13link
-	ops     []*c13op
-	byKey   map[string]*c13op
-	viol    *Violation
-	scanned map[*c13site]int
-	applied map[string]int // op id -> times executed at the peer by a link
-	applTxn map[string]map[int]bool
-	marker  []byte // a marker value observed in the wild (reused as a client value)
+	snapKeys    map[string]bool // keys of the dataset site A held before the links started (snapshot stratum)
+	snapApplied map[string]int
+	r           *Run
+	a, b        *c13site
+	ab, ba      *c13link
+	ops         []*c13op
+	byKey       map[string]*c13op
+	viol        *Violation
+	scanned     map[*c13site]int
+	applied     map[string]int // op id -> times executed at the peer by a link
+	applTxn     map[string]map[int]bool
+	marker      []byte // a marker value observed in the wild (reused as a client value)
 }
 
 func (c *c13sim) setViolation(rule, sig, format string, a ...any) {
@@ -76,7 +80,7 @@ func (c *c13sim) setViolation(rule, sig, format string, a ...any) {
 }
 
 func init() {
-	Register(&PropertyDef{ID: "C13", Strata: []string{"sync", "pipeline", "parallel", "mixed", "rewrite5"}, Run: runC13, StepCap: 20000})
+	Register(&PropertyDef{ID: "C13", Strata: []string{"sync", "pipeline", "parallel", "mixed", "rewrite5", "snapshot"}, Run: runC13, StepCap: 20000})
 }
 
 func (c *c13sim) newSite(name, addr, id, flavour string) *c13site {
@@ -96,18 +100,35 @@ func (c *c13sim) newSite(name, addr, id, flavour string) *c13site {
 func (c *c13sim) startLink(l *c13link) {
 	// state after a completed full sync of an empty site: root checkpoint at the source's current offset
 	off := l.from.srv.Repl.End()
-	l.to.srv.SetHash(0, l.cpName, map[string]string{
-		l.from.id + "_runid":   l.from.id,
-		l.from.id + "_version": "1",
-		l.from.id + "_offset":  strconv.FormatInt(off, 10),
-		l.from.id + "_mtime":   strconv.FormatInt(time.Now().UnixNano(), 10),
-	})
+	if l.rdb == nil {
+		l.to.srv.SetHash(0, l.cpName, map[string]string{
+			l.from.id + "_runid":   l.from.id,
+			l.from.id + "_version": "1",
+			l.from.id + "_offset":  strconv.FormatInt(off, 10),
+			l.from.id + "_mtime":   strconv.FormatInt(time.Now().UnixNano(), 10),
+		})
+	}
 	oc := l.cfg.outputConfig(l.from.id, l.cpName)
 	oc.Redis.Addresses = []string{l.to.addr}
 	oc.InputName = "link-" + l.name
 	l.ctx, l.cancel = context.WithCancel(context.Background())
 	l.ro = syncer.NewRedisOutput(oc)
 	go func() {
+		if l.rdb != nil {
+			// snapshot phase: the real full-sync replay (bidirectional snapshot path) of the source site's dataset; it
+			// ends by writing the root checkpoint at the snapshot's offset
+			p := newFeedPipe()
+			rrd := &stubReader{left: off, size: int64(len(l.rdb)), runID: l.from.id, aof: false, pipe: p}
+			rrd.br = bufio.NewReaderSize(p, l.cfg.BufSize)
+			p.Feed(l.rdb)
+			if err := l.ro.Send(l.ctx, rrd); err != nil {
+				l.mu.Lock()
+				l.spErr, l.phase = fmt.Errorf("snapshot replay: %w", err), 2
+				l.mu.Unlock()
+				return
+			}
+			c.r.Logf("link %s: snapshot phase done", l.name)
+		}
 		sp, err := l.ro.StartPoint(l.ctx, []string{l.from.id})
 		if err != nil {
 			l.mu.Lock()
@@ -245,6 +266,30 @@ func (c *c13sim) scan(s *c13site) {
 			}
 			continue
 		}
+		switch e.Name {
+		case "select", "ping", "info", "exec", "multi", "command":
+			continue
+		case "xgroup", "xinfo":
+			if len(e.Args) > 1 {
+				k = string(e.Args[1]) // XGROUP CREATE <key> ...
+			}
+		case "script", "function":
+			// scripts and function libraries of the snapshot (no key): part of the snapshot phase at B
+			if c.snapKeys != nil {
+				if s == c.a {
+					c.setViolation("C13.echo", "a write came back to the site it was made at", "a script/function of site A's snapshot, loaded at site B by the snapshot phase of link A>B, was sent back to site A by the opposite link: %s", e.String())
+				}
+				continue
+			}
+		}
+		if c.snapKeys[k] {
+			if s == c.a {
+				c.setViolation("C13.echo", "a write came back to the site it was made at", "key %q of site A's snapshot, written to site B by the snapshot phase of link A>B, was sent back to site A by the opposite link: %s", k, e.String())
+			} else {
+				c.snapApplied[k]++
+			}
+			continue
+		}
 		op := c.byKey[k]
 		if op == nil {
 			switch e.Name {
@@ -299,6 +344,24 @@ func runC13(r *Run, stratum string) *Violation {
 	}
 	c.ab = &c13link{name: "A>B", from: c.a, to: c.b, cfg: bisyncCfg(g, mode()), cpName: "redis-gunyu-checkpoint-bisync:aaaaaaaaaaaaaaaaaaaaaaaa"}
 	c.ba = &c13link{name: "B>A", from: c.b, to: c.a, cfg: bisyncCfg(g, mode()), cpName: "redis-gunyu-checkpoint-bisync:bbbbbbbbbbbbbbbbbbbbbbbb"}
+	if stratum == "snapshot" {
+		o := rdbgen.GenOpts{NowMs: time.Now().UnixMilli(), MaxKeys: 1 + g.Choose("snapkeys", 14), MaxElems: 1 + g.Choose("snapelems", 10), MaxElemLen: 48,
+			UniqueAcrossDBs: true, MaxDBs: 1, NoStreams: flavour == "5" && g.Choose("nostreams", 2) == 0}
+		if flavour == "5" {
+			o.MaxVersion = 9
+		}
+		ds := rdbgen.Gen(g, o)
+		c.snapKeys, c.snapApplied = map[string]bool{}, map[string]int{}
+		for _, k := range ds.Keys {
+			k.DB = 0
+			c.snapKeys[string(k.Name)] = true
+		}
+		c.ab.rdb, _ = rdbgen.Encode(ds, rdbgen.EncodeOpts{})
+		if g.Choose("snapexpand", 3) == 0 {
+			c.ab.cfg.NoRestore = true // native commands instead of RESTORE payloads
+		}
+		r.Logf("snapshot of site A: %s", ds.Summary(6))
+	}
 	c.startLink(c.ab)
 	c.startLink(c.ba)
 	r.Sample = fmt.Sprintf("flavour=%s A>B{%s} B>A{%s}", flavour, c.ab.cfg, c.ba.cfg)
